@@ -177,3 +177,48 @@ def include_forwards_configuration(prop="C03", names=("docmark", "predocmark", "
                 r.replay = replay()
         out.append(r)
     return out
+
+
+LITERAL_END = z3.Function("LITERAL_END", S, S, z3.IntSort())     # _literal_end(buffer, line), under its own contract (scanners.literal_end): 0 <= result <= len(line)
+
+
+def literal_tail(prop="C02"):
+    """the `if in_quote:` statement of FortranReader.__next__ that cuts a line at the end of a continued character literal.  Oracle: the line is cut exactly at the index
+    _literal_end returns (an index into the line as it was read - indentation included); what lies before is the rest of the literal, what lies after is code again, and the
+    reader is inside the literal afterwards iff the literal is not closed on this line.  Nothing of the line is lost or duplicated."""
+    import ast
+    from pyvc.blocks import stmt_containing
+    c = Contract("ford.reader", "FortranReader.__next__", prop)
+    c.qual_suffix = "literal_tail"
+    sel0 = stmt_containing("_literal_end(linebuffer, line)")
+
+    def select(fn):
+        loops = [n for n in ast.walk(fn) if isinstance(n, ast.While) and ast.unparse(n.test) == "not done"]
+        if len(loops) != 1:
+            from harness.loader import TargetMissing
+            raise TargetMissing("while not done")
+        fake = ast.FunctionDef(name="b", args=fn.args, body=loops[0].body, decorator_list=[], lineno=fn.lineno)
+        return sel0(fake)
+    c.block_select = select
+    c.dropped.append("block contract: the `if in_quote:` statement that calls _literal_end inside `while not done`")
+    c.fields = dict(RD_FIELDS)
+    c.param("self", TRef("FortranReader"))
+    for n, t in (("line", TStr()), ("linebuffer", TStr()), ("in_quote", TBool()), ("literal_tail", TStr())):
+        c.param(n, t)
+    c.local("line", TStr())
+    c.local("literal_tail", TStr())
+    c.local("literal_end", TInt())
+    c.calls["_literal_end"] = lambda eng, path, e, args, recv: SInt(LITERAL_END(eng.to_str(path, args[0]), eng.to_str(path, args[1])))
+    c.assumed.append("_literal_end(buffer, line) is the uninterpreted LITERAL_END with 0 <= LITERAL_END <= len(line) (its own contract: C02.A._literal_end)")
+    LE = lambda v: LITERAL_END(v.linebuffer, v.line)
+    c.requires("literal_end_in_range_and_tail_empty", lambda v: z3.And(LE(v) >= 0, LE(v) <= z3.Length(v.line), v.literal_tail == z3.StringVal("")))
+
+    def post(v0, res, v1):
+        n, le = z3.Length(v0.line), LE(v0)
+        closed = z3.And(v0.in_quote, le < n)
+        return z3.And(z3.Concat(v1.literal_tail, v1.line) == v0.line,
+                      z3.Length(v1.literal_tail) == z3.If(closed, le, 0),
+                      v1.in_quote == z3.And(v0.in_quote, z3.Not(closed)))
+    c.ensures("line_cut_exactly_at_the_end_of_the_literal_and_in_code_state_iff_closed", post)
+    c.no_raise = True
+    return c
